@@ -9,6 +9,7 @@
 extern "C" {
 #include "assemblyline.h"
 }
+#include <cerrno>
 #include <cstdint>
 #include <cstdio>
 #include <cstdlib>
@@ -49,6 +50,7 @@ extern "C" int LLVMFuzzerTestOneInput(const uint8_t *data, size_t size) {
   if (start > limit) start = limit; /* offsets are documented for 0..n only */
   asm_set_offset(a, start);
   int rc, cnt = 0;
+  { static const int E[] = {0, EINTR, ERANGE, ENOMEM, EAGAIN, EINVAL, EBADF, EIO}; errno = E[(data[2] >> 4) & 7]; }   // errno is the caller's and arbitrary on entry
   std::vector<char> w(text.begin(), text.end()); w.push_back(0);
   if (entry == 0) rc = asm_assemble_str(a, text.c_str());
   else if (entry == 1) rc = asm_assemble_string_counting_chunks(a, w.data(), (int)chunk, &cnt);
